@@ -20,7 +20,8 @@ def gen_spec(rng, size=None, features=None):
     """features: set of optional feature names to allow."""
     feats = features if features is not None else {
         'hdrs', 'steps', 'multi', 'gensrc', 'copy', 'alias', 'cmd', 'test',
-        'extra', 'default', 'install', 'always', 'subdirs', 'shared', 'implicit', 'pch', 'prelib'}
+        'extra', 'default', 'install', 'always', 'subdirs', 'shared', 'implicit', 'pch', 'prelib',
+        'versioned'}
     n = size or rng.randint(4, 22)
     files = {}
     nodes = []
@@ -125,6 +126,11 @@ def gen_spec(rng, size=None, features=None):
                   if prelibs and kind != 'slib' and rng.random() < 0.4 else []}
             if pch_str and not nd['hdrs'] and hdrs:
                 nd['hdrs'] = [rng.choice(hdrs)]
+            if kind == 'dlib' and 'versioned' in feats and rng.random() < 0.4:
+                # libN.so -> libN.so.<so> -> libN.so.<version>: the public output is the
+                # development symlink, the link step writes the real file
+                so = rng.randint(0, 9)
+                nd['version'] = ['%d.%d.%d' % (so, rng.randint(0, 9), rng.randint(0, 20)), str(so)]
         elif kind == 'step':
             if 'steps' not in feats:
                 continue
@@ -225,6 +231,12 @@ def out_names(nd):
     return []
 
 
+def versioned_names(nd):
+    """(real file, soname symlink) of a versioned shared library, relative to the build dir."""
+    pub = out_names(nd)[0]
+    return pub + '.' + nd['version'][0], pub + '.' + nd['version'][1]
+
+
 # --------------------------------------------------------------------------
 # rendering
 
@@ -265,6 +277,8 @@ def render(spec, stub='vrec'):
             inc = ', includes=[%s]' % ', '.join(_ref(['file', h]) for h in nd['hdrs']) \
                 if nd.get('hdrs') else ''
             pch = ', pch=%r' % nd['pch_str'] if nd.get('pch_str') else ''
+            if nd.get('version'):
+                pch += ', version=%r, soversion=%r' % tuple(nd['version'])
             L.append('%s = %s(%r, files=[%s]%s%s%s%s)' % (v, fn, nd['name'], ', '.join(files),
                                                          libs, inc, pch, extra))
         elif k == 'step':
@@ -379,6 +393,14 @@ class Model:
                 objs.append(o)
             libs = ['B:' + out_names(self.byid[l])[0] for l in nd['libs']] + \
                 ['S:' + p for p in nd.get('prelibs', [])]
+            if nd.get('version'):
+                real, soname = versioned_names(nd)
+                self._step('dlib%d' % i, i, 'link', objs + libs + extra, ['B:' + real])
+                self._step('dlib%d/soname' % i, i, 'symlink', ['B:' + real], ['B:' + soname])
+                self._step('dlib%d/devlink' % i, i, 'symlink', ['B:' + soname],
+                           ['B:' + out_names(nd)[0]])
+                self.node_primary[i] = 'dlib%d/devlink' % i
+                return
             self._step('%s%d' % (k, i), i, 'link' if k != 'slib' else 'ar',
                        objs + libs + extra, ['B:' + out_names(nd)[0]])
             self.node_primary[i] = '%s%d' % (k, i)
